@@ -4,6 +4,7 @@ import (
 	"io"
 
 	e "github.com/osteele/liquid/expressions"
+	"github.com/osteele/liquid/parser"
 	"github.com/osteele/liquid/render"
 	"github.com/osteele/liquid/values"
 )
@@ -23,7 +24,8 @@ func (c exprCase) test(caseValue any, ctx render.Context) (bool, error) {
 	for _, expr := range c.Exprs {
 		whenValue, err := ctx.Evaluate(expr)
 		if err != nil {
-			return false, err
+			// the failing tag is the when clause, not the case block
+			return false, parser.WrapError(err, c.b)
 		}
 		if values.Equal(caseValue, whenValue) {
 			return true, nil
@@ -50,7 +52,7 @@ func caseTagCompiler(node render.BlockNode) (func(io.Writer, render.Context) err
 		case "when":
 			stmt, err := e.ParseStatement(e.WhenStatementSelector, clause.Args)
 			if err != nil {
-				return nil, err
+				return nil, parser.WrapError(err, clause)
 			}
 			cases = append(cases, exprCase{stmt.When, clause})
 		default: // should be a check for "else", but I like the metacircularity
@@ -99,7 +101,8 @@ func ifTagCompiler(polarity bool) func(render.BlockNode) (func(io.Writer, render
 			case "elsif":
 				t, err := e.Parse(c.Args)
 				if err != nil {
-					return nil, err
+					// the failing tag is the elsif clause, not the if block
+					return nil, parser.WrapError(err, c)
 				}
 				test = t
 			}
@@ -109,7 +112,7 @@ func ifTagCompiler(polarity bool) func(render.BlockNode) (func(io.Writer, render
 			for _, b := range branches {
 				value, err := ctx.Evaluate(b.test)
 				if err != nil {
-					return err
+					return parser.WrapError(err, b.body)
 				}
 				if values.Truthy(value) {
 					return ctx.RenderBlock(w, b.body)
